@@ -21,48 +21,70 @@
 (***************************************************************************)
 EXTENDS Integers, Sequences, FiniteSets, TLC
 
-CONSTANTS K,        \* number of re-creatable coins
-          D,        \* maximum chain height
-          MAXOPS    \* bound on the number of actions in a behaviour
+CONSTANTS
+    \* @type: Int;
+    K,        \* number of re-creatable coins
+    \* @type: Int;
+    D,        \* maximum chain height
+    \* @type: Int;
+    MAXOPS    \* bound on the number of actions in a behaviour
 
 Coins == 1..K
 
+\* Type annotations are for Apalache (IndInv below); TLC ignores them.
 VARIABLES
+    \* @typeAlias: entry = {kind: Str, h: Int, spent: Bool, fresh: Bool, mod: Bool};
+    \* @typeAlias: blk = {cb: Int, spends: Set(Int), spentH: Int -> Int};
+    \* @type: Str;
     limit,    \* "always": cache limit 0 (FlushIfNeeded flushes after every block); "never": huge limit
+    \* @type: Int -> Int;
     truth,    \* truth[c]: 0 = not in the UTXO set, h > 0 = unspent, created at height h
+    \* @type: Int -> Int;
     disk,     \* same domain: the utxo bucket
+    \* @type: Int -> $entry;
     cache,    \* cache[c]: [kind |-> "none" | "nil" | "entry", h, spent, fresh, mod]
+    \* @type: Seq($blk);
     hist,     \* the active chain above genesis: sequence of [cb, spends, spentH]
+    \* @type: Int;
     nops,
+    \* @type: {op: Str, cb: Int, spends: Set(Int), c: Int};
     last      \* the call just made
 
 vars == <<limit, truth, disk, cache, hist, nops, last>>
 
+\* @type: $entry;
 None   == [kind |-> "none", h |-> 0, spent |-> FALSE, fresh |-> FALSE, mod |-> FALSE]
+\* @type: $entry;
 NilE   == [kind |-> "nil", h |-> 0, spent |-> FALSE, fresh |-> FALSE, mod |-> FALSE]
+\* @type: (Int, Bool, Bool) => $entry;
 Entry(h, fresh, mod) == [kind |-> "entry", h |-> h, spent |-> FALSE, fresh |-> fresh, mod |-> mod]
 
 \* fetchEntries for one outpoint
+\* @type: (Int -> $entry, Int -> Int, Int) => (Int -> $entry);
 FetchC(cch, dsk, c) ==
     IF cch[c].kind # "none" THEN cch
     ELSE [cch EXCEPT ![c] = IF dsk[c] = 0 THEN NilE ELSE Entry(dsk[c], FALSE, FALSE)]
 
 \* what FetchUtxoEntry reports (0 = no unspent entry) -- it fetches first
+\* @type: (Int -> $entry, Int -> Int, Int) => Int;
 View(cch, dsk, c) ==
     LET e == FetchC(cch, dsk, c)[c]
     IN IF e.kind = "entry" /\ ~e.spent THEN e.h ELSE 0
 
 \* writeCache
+\* @type: (Int -> $entry, Int -> Int) => (Int -> Int);
 FlushD(cch, dsk) ==
     [c \in Coins |->
         IF cch[c].kind = "none" THEN dsk[c]
         ELSE IF cch[c].kind = "nil" \/ cch[c].spent THEN 0
         ELSE IF ~cch[c].mod THEN dsk[c]
         ELSE cch[c].h]
+\* @type: Int -> $entry;
 Empty == [c \in Coins |-> None]
 
 \* addTxIn on a fetched entry: fresh entries are dropped, others stay as
 \* spent+modified so that the flush deletes them from disk
+\* @type: (Int -> $entry, Int) => (Int -> $entry);
 SpendC(cch, c) ==
     IF cch[c].fresh THEN [cch EXCEPT ![c] = None]
     ELSE [cch EXCEPT ![c].spent = TRUE, ![c].mod = TRUE]
@@ -70,17 +92,16 @@ SpendC(cch, c) ==
 \* addTxOut: the new entry is modified; it is fresh (unknown to the disk)
 \* unless the cache holds a non-fresh entry for the outpoint, whose on-disk
 \* copy must still be overwritten or deleted by the next flush
+\* @type: (Int -> $entry, Int, Int) => (Int -> $entry);
 AddC(cch, c, h) ==
     [cch EXCEPT ![c] = Entry(h, ~(cch[c].kind = "entry" /\ ~cch[c].fresh), TRUE)]
 
-RECURSIVE SpendAll(_, _)
-SpendAll(cch, S) ==
-    IF S = {} THEN cch
-    ELSE LET c == CHOOSE x \in S : TRUE IN SpendAll(SpendC(cch, c), S \ {c})
-RECURSIVE FetchAll(_, _, _)
-FetchAll(cch, dsk, S) ==
-    IF S = {} THEN cch
-    ELSE LET c == CHOOSE x \in S : TRUE IN FetchAll(FetchC(cch, dsk, c), dsk, S \ {c})
+\* several outpoints at once: the per-outpoint operations touch only their own
+\* cache slot, so the order in which the code walks the inputs does not matter
+\* @type: (Int -> $entry, Set(Int)) => (Int -> $entry);
+SpendAll(cch, S) == [c \in Coins |-> IF c \in S THEN SpendC(cch, c)[c] ELSE cch[c]]
+\* @type: (Int -> $entry, Int -> Int, Set(Int)) => (Int -> $entry);
+FetchAll(cch, dsk, S) == [c \in Coins |-> IF c \in S THEN FetchC(cch, dsk, c)[c] ELSE cch[c]]
 
 Height == Len(hist)
 
@@ -165,4 +186,39 @@ FlushedExact == (last.op \in {"flush", "disconnect"} \/ limit = "always") => dis
 \* the disconnect data (spend journal) restores exactly what was there
 HistOK == \A i \in 1..Len(hist) : \A s \in hist[i].spends : hist[i].spentH[s] > 0 /\ hist[i].spentH[s] < i
 
+
+-----------------------------------------------------------------------------
+(* The flag protocol as an inductive invariant (checked with Apalache for   *)
+(* histories of any length: IndInit => IndInv, IndInv /\ Next => IndInv').  *)
+(* Per coin: what the cache slot promises about the disk and the truth.     *)
+(* This is the design statement behind fix 519356e3: a re-created output is *)
+(* fresh only if the disk cannot hold a copy of it.                         *)
+SlotOK(c) ==
+    LET e == cache[c] IN
+    /\ e.kind \in {"none", "nil", "entry"}
+    /\ e.kind = "none" => disk[c] = truth[c]
+    /\ e.kind = "nil"  => truth[c] = 0 /\ disk[c] = 0
+    /\ (e.kind = "entry" /\ e.spent)  => truth[c] = 0 /\ ~e.fresh /\ e.mod
+    /\ (e.kind = "entry" /\ ~e.spent) => /\ truth[c] = e.h /\ e.h > 0
+                                         /\ (e.fresh => disk[c] = 0 /\ e.mod)
+                                         /\ (~e.mod => disk[c] = e.h)
+    /\ e.kind # "entry" => e = (IF e.kind = "none" THEN None ELSE NilE)
+
+BlockOK(i) ==
+    LET b == hist[i] IN
+    /\ b.cb \in Coins \cup {0}
+    /\ b.spends \subseteq Coins
+    /\ b.cb \notin b.spends
+    /\ DOMAIN b.spentH = b.spends
+    /\ \A s \in b.spends : b.spentH[s] > 0 /\ b.spentH[s] < i
+
+IndInv ==
+    /\ limit \in {"always", "never"}
+    /\ nops \in 0..MAXOPS
+    /\ Len(hist) <= D
+    /\ \A c \in Coins : truth[c] \in 0..D /\ disk[c] \in 0..D /\ SlotOK(c)
+    /\ \A i \in DOMAIN hist : BlockOK(i)
+
+\* IndInv implies the properties
+IndImplies == IndInv => (Coherent /\ FlushD(cache, disk) = truth)
 =============================================================================
